@@ -336,8 +336,12 @@ package ocimem
 //@   nocall
 //@   requires commit != nil
 //@   ensures result != nil && result.commit != nil && result.uuid != "" && (uuid != "" ==> result.uuid == uuid)
+// The typed manifest decoder accepts only data that is, as a whole, one
+// well-formed JSON document (jsonDoc: what encoding/json.Unmarshal accepts;
+// a decoder that reads one value and ignores what follows does not qualify).
 //@ func descIterForType$1
 //@   requires newIter != nil
+//@   ensures[only-a-whole-json-document-is-accepted] result.1 == nil ==> jsonDoc(data)
 //@ func descIterForType
 //@   requires newIter != nil
 //@   ensures result != nil
